@@ -330,11 +330,17 @@ def load_known():
         return []
 
 
-def match_known(prop, key, known):
+def match_known(prop, key, known, replay=None):
+    """an open finding is identified by the violation key *and*, when it lists `inputs`, by the failing input itself (the hash in
+    the replay file name = sha256(case id | script)): another input failing the same way is a new violation"""
     for k in known:
         if k.get("property") == prop and k.get("state") == "open":
             pat = k.get("key")
             if pat == key or (k.get("regex") and re.search(k["regex"], key)):
+                if k.get("inputs"):
+                    h = os.path.basename(replay or "").rsplit("-", 1)[-1].replace(".json", "")
+                    if h not in k["inputs"]:
+                        continue
                 return k
     return None
 
@@ -372,7 +378,7 @@ class Report:
             self.extra[k] = max(self.extra.get(k, v), v)
 
     def add_violation(self, v):
-        k = match_known(self.prop, v["key"], self.known)
+        k = match_known(self.prop, v["key"], self.known, v.get("replay"))
         if k is not None:
             ent = self.known_hit.setdefault(k["key"], dict(what=k.get("what", ""), n=0))
             ent["n"] += 1
